@@ -51,6 +51,30 @@ pub enum M {
     AppendForeignTx(usize),
     /// Remove all records of transaction t.
     DeleteTx(usize),
+    /// Re-label record i with an unknown record kind (3) and a recomputed, valid disk digest.
+    Rekind(usize),
+    /// Append a well-formed record of unknown kind (3) after the complete log.
+    AppendUnknownKind,
+}
+
+/// Disk-record digest as documented: BLAKE3("echo:causal_wal:disk_record:v1\0" · kind · len u64 LE · payload).
+pub fn disk_digest(kind: u8, payload: &[u8]) -> [u8; 32] {
+    let mut h = blake3::Hasher::new();
+    h.update(b"echo:causal_wal:disk_record:v1\0");
+    h.update(&[kind]);
+    h.update(&(payload.len() as u64).to_le_bytes());
+    h.update(payload);
+    *h.finalize().as_bytes()
+}
+
+fn forged_record(kind: u8, payload: &[u8]) -> Vec<u8> {
+    let mut v = Vec::new();
+    v.extend_from_slice(walkit::frame::MAGIC);
+    v.push(kind);
+    v.extend_from_slice(&(payload.len() as u64).to_le_bytes());
+    v.extend_from_slice(payload);
+    v.extend_from_slice(&disk_digest(kind, payload));
+    v
 }
 
 impl M {
@@ -69,7 +93,13 @@ impl M {
             M::SpliceTx(t) => json!({"op": "splice-tx", "tx": t}),
             M::AppendForeignTx(t) => json!({"op": "append-foreign-tx", "tx": t}),
             M::DeleteTx(t) => json!({"op": "delete-tx", "tx": t}),
+            M::Rekind(i) => json!({"op": "rekind", "record": i}),
+            M::AppendUnknownKind => json!({"op": "append-unknown-kind"}),
         }
+    }
+    /// Operators that only add bytes after the complete, intact log.
+    pub fn appends_after_log(&self) -> bool {
+        matches!(self, M::DupEnd(_) | M::AppendForeignTx(_) | M::AppendUnknownKind)
     }
     pub fn from_js(v: &Value) -> Option<M> {
         let u = |k: &str| v[k].as_u64().map(|x| x as usize);
@@ -84,6 +114,8 @@ impl M {
             "splice-tx" => M::SpliceTx(u("tx")?),
             "append-foreign-tx" => M::AppendForeignTx(u("tx")?),
             "delete-tx" => M::DeleteTx(u("tx")?),
+            "rekind" => M::Rekind(u("record")?),
+            "append-unknown-kind" => M::AppendUnknownKind,
             _ => return None,
         })
     }
@@ -133,6 +165,8 @@ pub fn class(log: &dyn SegLog, m: &M) -> String {
         M::SpliceTx(t) => format!("splice-transaction({})", pos(*t)),
         M::AppendForeignTx(_) => "append-foreign-transaction".into(),
         M::DeleteTx(t) => format!("delete-transaction({})", if *t == 0 && n > 1 { "first" } else { pos(*t) }),
+        M::Rekind(i) => format!("unknown-kind-{}({})", rk(&log.recs()[*i]), pos(tx_of_record(log, *i))),
+        M::AppendUnknownKind => "unknown-kind-record-appended".into(),
     }
 }
 
@@ -146,6 +180,7 @@ pub fn family(m: &M) -> &'static str {
         M::Swap(_) => "swap",
         M::Transplant(_) => "transplant",
         M::SpliceTx(_) | M::AppendForeignTx(_) => "splice",
+        M::Rekind(_) | M::AppendUnknownKind => "unknown-kind",
     }
 }
 
@@ -182,7 +217,9 @@ pub fn enumerate_ops(a: &dyn SegLog, b: &dyn SegLog, flips: bool, zero: bool) ->
         if b.recs().len() == nrec {
             out.push(M::Transplant(i));
         }
+        out.push(M::Rekind(i));
     }
+    out.push(M::AppendUnknownKind);
     for t in 0..a.ntx() {
         if b.ntx() == a.ntx() {
             out.push(M::SpliceTx(t));
@@ -248,6 +285,16 @@ pub fn apply(a: &dyn SegLog, b: &dyn SegLog, m: &M) -> Option<Vec<u8>> {
             let ra = tx_records(a, *t);
             let (s, e) = (a.recs()[ra.start].start, a.recs()[ra.end - 1].end);
             [&seg[..s], &seg[e..]].concat()
+        }
+        M::Rekind(i) => {
+            let r = &a.recs()[*i];
+            let forged = forged_record(3, &seg[r.payload_start()..r.payload_end()]);
+            [&seg[..r.start], &forged[..], &seg[r.end..]].concat()
+        }
+        M::AppendUnknownKind => {
+            let r = a.recs().last()?;
+            let forged = forged_record(3, &seg[r.payload_start()..r.payload_end()]);
+            [seg, &forged[..]].concat()
         }
     };
     if out == seg {
